@@ -129,11 +129,11 @@ macro_rules! unimpl {
     };
 }
 
-#[endpoint { method = GET, path = "/outer" }]
+#[endpoint { method = GET, path = "/outer", tags = ["disks"] }]
 async fn e_outer(_: RequestContext<()>) -> Result<HttpResponseOk<Outer>, HttpError> {
     unimpl!()
 }
-#[endpoint { method = GET, path = "/tree", versions = "2.0.0".. }]
+#[endpoint { method = GET, path = "/tree", versions = "2.0.0".., tags = ["Disks", "vpc"] }]
 async fn e_tree(_: RequestContext<()>) -> Result<HttpResponseOk<Tree>, HttpError> {
     unimpl!()
 }
@@ -141,11 +141,11 @@ async fn e_tree(_: RequestContext<()>) -> Result<HttpResponseOk<Tree>, HttpError
 async fn e_tree_put(_: RequestContext<()>, _b: TypedBody<Tree>) -> Result<HttpResponseCreated<Vec<Tree>>, HttpError> {
     unimpl!()
 }
-#[endpoint { method = GET, path = "/hdr/alias", versions = "1.0.0".."3.0.0" }]
+#[endpoint { method = GET, path = "/hdr/alias", versions = "1.0.0".."3.0.0", tags = ["VPC"] }]
 async fn e_hdr_alias(_: RequestContext<()>) -> Result<HttpResponseHeaders<HttpResponseOk<u32>, HdrsAlias>, HttpError> {
     unimpl!()
 }
-#[endpoint { method = GET, path = "/hdr/chain" }]
+#[endpoint { method = GET, path = "/hdr/chain", tags = ["vpc", "images"] }]
 async fn e_hdr_chain(_: RequestContext<()>) -> Result<HttpResponseHeaders<HttpResponseOk<String>, HdrsChain>, HttpError> {
     unimpl!()
 }
@@ -153,7 +153,7 @@ async fn e_hdr_chain(_: RequestContext<()>) -> Result<HttpResponseHeaders<HttpRe
 async fn e_hdr_doc(_: RequestContext<()>) -> Result<HttpResponseHeaders<HttpResponseOk<a::Dup>, HdrsDoc>, HttpError> {
     unimpl!()
 }
-#[endpoint { method = GET, path = "/q/{fresh}" }]
+#[endpoint { method = GET, path = "/q/{fresh}", tags = ["Images"] }]
 async fn e_params(
     _: RequestContext<()>,
     _p: Path<PEnum>,
@@ -165,7 +165,7 @@ async fn e_params(
 async fn e_dup(_: RequestContext<()>, _b: TypedBody<a::Dup>) -> Result<HttpResponseOk<b::Dup>, HttpError> {
     unimpl!()
 }
-#[endpoint { method = GET, path = "/err" }]
+#[endpoint { method = GET, path = "/err", tags = ["disks", "DISKS"] }]
 async fn e_err(_: RequestContext<()>) -> Result<HttpResponseOk<OrderAliasAlias>, MyError> {
     Err(MyError { detail: Inner2 { why: "x".into() } })
 }
@@ -212,9 +212,25 @@ fn main() {
             order.swap(i, j);
         }
         let api = build(&order);
+        // the same endpoints registered in another order must give the same bytes
+        let mut order2 = order.clone();
+        for i in (1..order2.len()).rev() {
+            let j = rng.below(i as u64 + 1) as usize;
+            order2.swap(i, j);
+        }
+        let api2 = build(&order2);
         for v in ["0.5.0", "1.0.0", "2.0.0", "2.5.0", "3.0.0", "9.0.0"] {
             let mut bytes = vec![];
             api.openapi("t", semver::Version::parse(v).unwrap()).write(&mut bytes).unwrap();
+            let mut same_twice = true;
+            for _ in 0..3 {
+                let mut again = vec![];
+                api.openapi("t", semver::Version::parse(v).unwrap()).write(&mut again).unwrap();
+                same_twice &= again == bytes;
+            }
+            let mut other = vec![];
+            api2.openapi("t", semver::Version::parse(v).unwrap()).write(&mut other).unwrap();
+            let same_perm = other == bytes;
             let json: serde_json::Value = serde_json::from_slice(&bytes).unwrap();
             let mut refs = vec![];
             collect_refs(&json, &mut refs);
@@ -224,7 +240,7 @@ fn main() {
             id += 1;
             let ord: Vec<String> = order.iter().map(|i| i.to_string()).collect();
             out.line(&format!(
-                "refs {} {} {} => {} {} {} {} {}",
+                "refs {} {} {} => {} {} {} {} {} {} {}",
                 id,
                 v,
                 if ord.is_empty() { "-".to_string() } else { ord.join(",") },
@@ -232,7 +248,9 @@ fn main() {
                 refs.len(),
                 unresolved.len(),
                 nschemas,
-                hex(unresolved.join(",").as_bytes())
+                hex(unresolved.join(",").as_bytes()),
+                same_twice as u8,
+                same_perm as u8
             ));
         }
     }
